@@ -178,11 +178,9 @@ def rand_name(rng):
         return rand_token(rng)
     if k < 0.97:
         return rand_token(rng, 20, 300)
-    # HPACK itself is byte-transparent: arbitrary octets, but no trailing isspace() and not empty
-    n = bytes(rng.randrange(256) for _ in range(rng.randint(1, 12)))
-    while n and n[-1:] in [bytes([c]) for c in SPACES]:
-        n = n[:-1]
-    return n or b"q"
+    # HPACK itself is byte-transparent: arbitrary octets (also trailing white space), not empty
+    n = bytes(rng.choice([rng.randrange(256), 0x20, 0x09]) for _ in range(rng.randint(1, 12)))
+    return n
 
 
 def rand_pool(rng, n):
@@ -248,6 +246,7 @@ def fields_text(hdrs):
 
 
 # ---------------------------------------------------------------- oracle + classification
+MUST_FAIL = set()   # lines whose last served block is truncated inside a field: must be an error
 EXPECT = {}      # line -> list of expected field-lists for the served blocks (in order)
 FINALTBL = {}    # line -> expected final dynamic table (python bookkeeping), when known
 
@@ -286,6 +285,8 @@ def oracle(line, out):
         o = out.split(" ")
         if o[-1].startswith("x=") and o[-1] != "x=ok":
             return "HPACK decode: lshpack and nghttp2 decode the same block differently (%s)" % o[-1]
+        if line in MUST_FAIL and not any(x.startswith("e-") for x in o):
+            return "HPACK decode: a block that ends inside a header field (value string missing) was accepted"
         exp = EXPECT.get(line)
         if exp is not None:
             ops = t[2:]
@@ -420,10 +421,19 @@ def parse_hdr_ops(txt):
     return out
 
 
+def with_updates(exp, upd):
+    """'ok:<es>:<fields>' -> 'ok:<es>:<updates>:<fields>'"""
+    if not exp.startswith("ok:"):
+        return exp
+    p = exp.split(":", 2)
+    return "ok:%s:%s:%s" % (p[1], "+".join(str(u) for u in upd) if upd else "-", p[2])
+
+
 def oracle_resp(line, out):
     t = line.split(" ")
     o = out.split(" ")
     srvtag = t[1] == "1"
+    size, pend = 4096, []         # table size lighttpd uses / sizes since the last header block sent
     for i, it in enumerate(t[2:]):
         if i >= len(o):
             return "h2_send_headers: missing output"
@@ -435,12 +445,25 @@ def oracle_resp(line, out):
                 exp = trailers_expected(parse_hdr_ops(ops))
             else:
                 exp = resp_expected(int(st), int(es), parse_hdr_ops(ops), srvtag) or "rst"
+            if exp.startswith("ok:"):
+                # RFC 7541 4.2: the smallest size since the prior block, then the final one
+                upd = ([min(pend)] if min(pend) == size else [min(pend), size]) if pend else []
+                exp = with_updates(exp, upd)
+                if o[i].startswith("ok:"):
+                    pend = []
             if o[i] != exp:
                 if o[i].startswith("BADFRAMES"):
                     return "h2_send_hpack: response header block badly framed (%s)" % o[i]
                 if o[i] == "NGFAIL":
                     return "h2_send_headers: nghttp2 cannot decode the response header block"
+                if o[i].startswith("ok:") and exp.startswith("ok:") and o[i].split(":")[2] != exp.split(":")[2]:
+                    return "h2: dynamic table size update after SETTINGS_HEADER_TABLE_SIZE change missing or wrong"
                 return "h2_send_headers: the peer decodes a different status/field list than the response has"
+        elif it[0] == "C":
+            v = min(int(it[1:]), 4096)
+            if v != size:
+                size = v
+                pend.append(v)
         elif it[0] == "F" and not (16384 <= int(it[1:]) <= 16777215):
             return None if o[i:i + 2] == ["f", "goaway"] else "SETTINGS_MAX_FRAME_SIZE out of range not refused"
     return None
@@ -574,7 +597,6 @@ def gen_histories(ctx, exe):
         pool = rand_pool(rng, rng.choice([3, 8, 30, 120]))
         if short:
             pool = [(n[:12] or b"x", v[:10]) for n, v in pool]
-            pool = [(n if n[-1:] not in (b" ", b"\t", b"\n", b"\r", b"\x0b", b"\x0c") else n[:-1] + b"q", v) for n, v in pool]
         which = ("lean", "ls", "ng")[ci % 3]
         midblock = which == "lean" and rng.random() < 0.12
         ops, exps, disp = [], [], []
@@ -687,9 +709,17 @@ def corrupt_lines(ctx, valid_lines):
             L.append(" ".join(tt))
         if len(L) > budget:
             break
-    # the documented leniencies of lshpack_dec_decode (theorems c07_deviation_*), replayed against the C
-    L += ["connx 65535 B400261200162", "connx 65535 B400261200162 Bbe", "connx 65535 B000161", "connx 65535 B3fe11f",
-          "connx 65535 B8220", "connx 65535 B7f80808000", "connx 65535 B400161016220be", "connx 65535 B40012001 62"[:-3]]
+    # regression corpus: repaired defects (field name trailing-space strip, missing value string accepted)
+    for line, exp in (("connv 65535 B400261200162", ["6120:62"]), ("connv 65535 B400261200162 Bbe", ["6120:62", "6120:62"]),
+                      ("connv 65535 B00036120200162", ["612020:62"])):
+        EXPECT[line] = exp
+        L.append(line)
+    for line in ("connx 65535 B000161", "connx 65535 B45", "connx 65535 B400161", "connx 65535 B8210a461",
+                 "connx 65535 B400161016200016310"):
+        MUST_FAIL.add(line)
+        L.append(line)
+    # the documented deviations of lshpack_dec_decode (theorems c07_deviation_*), replayed against the C
+    L += ["connx 65535 B3fe11f", "connx 65535 B8220", "connx 65535 B7f80808000", "connx 65535 B400161016220be"]
     # purely random short blocks on a fresh connection and after one valid block
     for _ in range(20000 if ctx.quick else 200000):
         v = bytes(rng.choice([rng.randrange(256), 0x40, 0x00, 0x10, 0x20, 0x3f, 0x7f, 0x80, 0x82, 0xbe, 0xff, 0x01, 0x61])
@@ -811,7 +841,8 @@ def rand_request(rng, es):
 def make_invalid(rng, hdrs):
     """insert one field http_request_parse_header() must refuse (400); returns (list, its index)"""
     bad = rng.choice([(b"connection", b"keep-alive"), (b"te", b"gzip"), (b"transfer-encoding", b"chunked"),
-                      (b"X-Upper", b"1"), (b"a b", b"1"), (b":path", b"/late"), (b":foo", b"bar"),
+                      (b"X-Upper", b"1"), (b"a b", b"1"), (b"accept ", b"1"), (b"x-t\t", b"1"), (b":path", b"/late"),
+                      (b":foo", b"bar"),
                       (b"content-length", b"abc"), (b"keep-alive", b"x"), (b"host", b"other.example")])
     if bad[0] == b"keep-alive":
         bad = (b"Keep-Alive", b"x")
@@ -1068,7 +1099,9 @@ def rand_resp_value(rng):
 
 def gen_resp(ctx):
     rng = ctx.rng
-    L = []
+    # regression corpus: size update after the peer changed SETTINGS_HEADER_TABLE_SIZE; oversized response
+    L = ["resp 0 C0 R200/1/-", "resp 1 R200/1/s%s:%s C0 C4096 R200/1/s%s:%s R204/0/-" % ((C.hx(b"ETag"), C.hx(b"x1")) * 2),
+         "resp 0 C100 C50 C300 R404/0/- C4096 R200/1/-", "resp 0 C5000 R200/1/- C4096 I103/0/- C64 T0/1/s%s:%s" % (C.hx(b"X-T"), C.hx(b"1"))]
     for _ in range(2500 if ctx.quick else 30000):
         items = []
         pool = [(rand_case(rng, rng.choice(RESP_NAMES)), rand_resp_value(rng)) for _ in range(rng.choice([2, 5, 12]))]
